@@ -27,7 +27,11 @@ QUICK_PROGRAMS = ["init", "url", "msg", "idmap", "opts", "pair0:inproc", "reqrep
                   "subctx:inproc", "stats:inproc", "pipeline:ws", "ctx:inproc",
                   # HTTP URIs beyond the inline buffer; WebSocket messages of several fragments whose
                   # payload the receiver checks byte for byte (intact or not at all, for every k)
-                  "httpuri", "bigpair200k:ws", "bigreqrep70k:ws"]
+                  "httpuri", "bigpair200k:ws", "bigreqrep70k:ws",
+                  # HTTP error pages; nng_init with several threads of each kind; raw sockets and
+                  # polyamorous PAIR1, whose per-pipe state allocates (pipe_init can fail)
+                  "httperr", "init:t2e2p2r2", "init:t3e3p3r3", "init:t1e3p1r2",
+                  "xrep:tcp", "xresp:inproc", "xsurv:inproc", "xreq:inproc", "poly:inproc"]
 
 
 def api_run(binpath, prog, k):
@@ -185,6 +189,12 @@ def api_key(sig):
         return "http-sconn-init-null-server"
     if "url.c" in w and "SEGV" in w:
         return "url-strdup-unchecked"
+    if "eq->eq_stop" in w and "nni_aio_expire_q_alloc" in inj:
+        return "aio-sys-init-expire-q-unstopped"
+    if "nni_msgq_init" in inj and re.search(r"(xrep0|xresp0|xsurv0|pair1poly)_pipe_init", inj):
+        return "raw-pipe-init-failure-double-teardown"
+    if "http_server_set_err" in inj and ("pthread_mutex" in w or sig["verdict"] == "HANG"):
+        return "http-set-err-wrong-unlock"
     if "heap-use-after-free" in w and "nni_http_get_uri" in w:
         return "http-set-uri-dangling"
     if sig["verdict"] == "BADRV:-1001":
